@@ -186,6 +186,24 @@ def controller(w: World, sim, rng: random.Random, p_instr: float) -> List[Any]:
     return out
 
 
+def impl_raised(exc: BaseException) -> Optional[Dict[str, Any]]:
+    """an exception that comes out of the implementation (a frame of /repo on the stack, raised
+    below the harness), as a small dictionary; None when the harness itself is at fault"""
+    import traceback as _tb
+
+    frames = _tb.extract_tb(exc.__traceback__)
+    if not frames or not any(f.filename.startswith("/repo/") for f in frames):
+        return None
+    if "/harness/" in frames[-1].filename:
+        return None
+    return {"exc": f"{type(exc).__name__}: {exc}"[:300],
+            "where": [f"{f.filename}:{f.lineno} {f.name}" for f in frames if f.filename.startswith("/repo/")][-4:]}
+
+
+class _Abort(Exception):
+    pass
+
+
 def run_history(w: World, rng: random.Random, steps: int, *, p_instr: float = 0.45, p_req: float = 0.5,
                 p_probe: float = 0.5, tag: str = "") -> List[Dict[str, Any]]:
     """returns protocol records; each has `id` = (tag, step, phase)"""
@@ -199,162 +217,174 @@ def run_history(w: World, rng: random.Random, steps: int, *, p_instr: float = 0.
 
     retained: List[Any] = []   # (record id, the state object as obtained, its encoding at that moment)
     with recording(oracle):
-        for k in range(steps):
-            if k % 5 == 0:
-                retained.append((f"{tag}:{k}:pre", sim, _json.dumps(enc_sim(n, sim), sort_keys=True)))
-            # --- request arrivals / cancellations (real state ops) ---
-            pre = sim
-            env.reporter.reports = []
-            adds = []
-            oracle.reset()
-            if rng.random() < p_req:
-                for _ in range(rng.choice([1, 1, 2, 4])):
-                    r = w.new_request(sim, pooling=rng.random() < 0.08)
-                    sim = simulation_state_ops.add_request_safe(sim, r).unwrap()
-                    adds.append(r)
-            if rng.random() < 0.3:
-                sim, _ = cancel.update(sim, env)
-            from nrel.hive.reporting.report_type import ReportType as _RT
-
-            cancels = [x.report["request_id"] for x in env.reporter.reports if x.report_type == _RT.CANCEL_REQUEST_EVENT]
-            from .encode import enc_request
-
-            recs.append(
-                {
-                    "op": "pre",
-                    "id": f"{tag}:{k}:pre",
-                    "pre": enc_sim(n, pre),
-                    "adds": [enc_request(n, r) for r in adds],
-                    "cancels": [n.get("req", c) for c in cancels],
-                    "post": enc_sim(n, sim),
-                    "events": [{"addRequest": {"r": n.get("req", r.id)}} for r in adds] + enc_events(n, env.reporter.reports),
-                    "oracle": oracle.encode(n),
-                    "skip": False,
-                }
-            )
-            env.reporter.reports = []
-            # --- probe (C09): one instruction applied alone to the current state, result discarded ---
-            if sim.vehicles and rng.random() < p_probe:
-                pv = rng.choice(sorted(sim.vehicles.keys()))
-                pi = random_instruction(w, sim, pv, rng)
+        raised_info: List[Dict[str, Any]] = []
+        k = 0
+        try:
+            for k in range(steps):
+                if k % 5 == 0:
+                    retained.append((f"{tag}:{k}:pre", sim, _json.dumps(enc_sim(n, sim), sort_keys=True)))
+                # --- request arrivals / cancellations (real state ops) ---
+                pre = sim
+                env.reporter.reports = []
+                adds = []
                 oracle.reset()
-                probe_raised = False
+                if rng.random() < p_req:
+                    for _ in range(rng.choice([1, 1, 2, 4])):
+                        r = w.new_request(sim, pooling=rng.random() < 0.08)
+                        sim = simulation_state_ops.add_request_safe(sim, r).unwrap()
+                        adds.append(r)
+                if rng.random() < 0.3:
+                    sim, _ = cancel.update(sim, env)
+                from nrel.hive.reporting.report_type import ReportType as _RT
+
+                cancels = [x.report["request_id"] for x in env.reporter.reports if x.report_type == _RT.CANCEL_REQUEST_EVENT]
+                from .encode import enc_request
+
+                recs.append(
+                    {
+                        "op": "pre",
+                        "id": f"{tag}:{k}:pre",
+                        "pre": enc_sim(n, pre),
+                        "adds": [enc_request(n, r) for r in adds],
+                        "cancels": [n.get("req", c) for c in cancels],
+                        "post": enc_sim(n, sim),
+                        "events": [{"addRequest": {"r": n.get("req", r.id)}} for r in adds] + enc_events(n, env.reporter.reports),
+                        "oracle": oracle.encode(n),
+                        "skip": False,
+                    }
+                )
+                env.reporter.reports = []
+                # --- probe (C09): one instruction applied alone to the current state, result discarded ---
+                if sim.vehicles and rng.random() < p_probe:
+                    pv = rng.choice(sorted(sim.vehicles.keys()))
+                    pi = random_instruction(w, sim, pv, rng)
+                    oracle.reset()
+                    probe_raised = False
+                    try:
+                        probe_post = apply_instructions(sim, env, (pi,))
+                    except Exception:
+                        probe_raised = True
+                    recs.append(
+                        {
+                            "op": "apply",
+                            "probe": True,
+                            "id": f"{tag}:{k}:probe",
+                            "pre": enc_sim(n, sim),
+                            "instrs": [enc_instr(n, pi)],
+                            "post": None if probe_raised else enc_sim(n, probe_post),
+                            "events": enc_events(n, env.reporter.reports),
+                            "oracle": oracle.encode(n),
+                            "skip": oracle.boundary_hit,
+                        }
+                    )
+                    env.reporter.reports = []
+                # --- transition probe: exit + enter of an arbitrary activity, result discarded ---
+                if sim.vehicles and rng.random() < p_probe * 0.8:
+                    from .encode import enc_act
+
+                    pv = rng.choice(sorted(sim.vehicles.keys()))
+                    travelling = [x for x in sorted(sim.vehicles.keys()) if isinstance(sim.vehicles[x].vehicle_state, DispatchTrip)]
+                    if travelling and rng.random() < 0.4:
+                        pv = rng.choice(travelling)
+                    oracle.reset()
+                    nxt = None
+                    outcome = "raise"
+                    t_post = None
+                    try:
+                        nxt = random_state(w, sim, pv, rng)
+                        err, t_post = entity_state_ops.transition_previous_to_next(sim, env, sim.vehicles[pv].vehicle_state, nxt)
+                        outcome = "error" if err is not None else ("rejected" if t_post is None else "ok")
+                    except Exception:
+                        outcome = "raise"
+                    if nxt is not None:
+                        recs.append(
+                            {
+                                "op": "transition",
+                                "probe": True,
+                                "id": f"{tag}:{k}:transition",
+                                "pre": enc_sim(n, sim),
+                                "veh": n.get("veh", pv),
+                                "next": enc_act(n, nxt),
+                                "outcome": outcome,
+                                "post": enc_sim(n, t_post) if outcome == "ok" else None,
+                                "events": enc_events(n, env.reporter.reports),
+                                "oracle": oracle.encode(n),
+                                "skip": oracle.boundary_hit,
+                            }
+                        )
+                    env.reporter.reports = []
+                # --- instruction phase ---
+                instrs = controller(w, sim, rng, p_instr)
+                oracle.reset()
+                pre = sim
+                raised = False
                 try:
-                    probe_post = apply_instructions(sim, env, (pi,))
+                    sim = apply_instructions(sim, env, tuple(instrs))
                 except Exception:
-                    probe_raised = True
+                    raised = True
                 recs.append(
                     {
                         "op": "apply",
-                        "probe": True,
-                        "id": f"{tag}:{k}:probe",
-                        "pre": enc_sim(n, sim),
-                        "instrs": [enc_instr(n, pi)],
-                        "post": None if probe_raised else enc_sim(n, probe_post),
+                        "id": f"{tag}:{k}:apply",
+                        "pre": enc_sim(n, pre),
+                        "instrs": [enc_instr(n, i) for i in instrs],
+                        "post": None if raised else enc_sim(n, sim),
                         "events": enc_events(n, env.reporter.reports),
                         "oracle": oracle.encode(n),
                         "skip": oracle.boundary_hit,
                     }
                 )
                 env.reporter.reports = []
-            # --- transition probe: exit + enter of an arbitrary activity, result discarded ---
-            if sim.vehicles and rng.random() < p_probe * 0.8:
-                from .encode import enc_act
-
-                pv = rng.choice(sorted(sim.vehicles.keys()))
-                travelling = [x for x in sorted(sim.vehicles.keys()) if isinstance(sim.vehicles[x].vehicle_state, DispatchTrip)]
-                if travelling and rng.random() < 0.4:
-                    pv = rng.choice(travelling)
+                if not raised and instrs:
+                    # independence (C09): which instructions took effect in the phase, and - for one that did
+                    # not although nothing before it did - whether it is accepted when applied alone to the
+                    # same state (then only another vehicle's rejected instruction can have disturbed it)
+                    taken = [sim.applied_instructions.get(i.vehicle_id) is i for i in instrs]
+                    alone = []
+                    for idx, i in enumerate(instrs):
+                        if not taken[idx] and not any(taken[:idx]):
+                            try:
+                                solo = apply_instructions(pre, env, (i,))
+                                alone.append([idx, solo.applied_instructions.get(i.vehicle_id) is i])
+                            except Exception:
+                                alone.append([idx, False])
+                    recs[-1]["taken"] = taken
+                    recs[-1]["alone"] = alone
+                    env.reporter.reports = []
+                # --- update phase ---
                 oracle.reset()
-                nxt = None
-                outcome = "raise"
-                t_post = None
-                try:
-                    nxt = random_state(w, sim, pv, rng)
-                    err, t_post = entity_state_ops.transition_previous_to_next(sim, env, sim.vehicles[pv].vehicle_state, nxt)
-                    outcome = "error" if err is not None else ("rejected" if t_post is None else "ok")
-                except Exception:
-                    outcome = "raise"
-                if nxt is not None:
-                    recs.append(
-                        {
-                            "op": "transition",
-                            "probe": True,
-                            "id": f"{tag}:{k}:transition",
-                            "pre": enc_sim(n, sim),
-                            "veh": n.get("veh", pv),
-                            "next": enc_act(n, nxt),
-                            "outcome": outcome,
-                            "post": enc_sim(n, t_post) if outcome == "ok" else None,
-                            "events": enc_events(n, env.reporter.reports),
-                            "oracle": oracle.encode(n),
-                            "skip": oracle.boundary_hit,
-                        }
-                    )
+                pre = sim
+                sim = perform_vehicle_state_updates(sim, env)
+                crow = []
+                for vid_, v_ in sorted(sim.vehicles.items()):
+                    p_ = pre.vehicles.get(vid_)
+                    if p_ is not None and p_.geoid != v_.geoid:
+                        crow.append([n.get("veh", vid_), q(_crow_km(p_.geoid, v_.geoid))])
+                recs.append(
+                    {
+                        "op": "update",
+                        "id": f"{tag}:{k}:update",
+                        "crow": crow,
+                        "pre": enc_sim(n, pre),
+                        "post": enc_sim(n, sim),
+                        "events": enc_events(n, env.reporter.reports),
+                        "oracle": oracle.encode(n),
+                        "skip": oracle.boundary_hit,
+                    }
+                )
                 env.reporter.reports = []
-            # --- instruction phase ---
-            instrs = controller(w, sim, rng, p_instr)
-            oracle.reset()
-            pre = sim
-            raised = False
-            try:
-                sim = apply_instructions(sim, env, tuple(instrs))
-            except Exception:
-                raised = True
-            recs.append(
-                {
-                    "op": "apply",
-                    "id": f"{tag}:{k}:apply",
-                    "pre": enc_sim(n, pre),
-                    "instrs": [enc_instr(n, i) for i in instrs],
-                    "post": None if raised else enc_sim(n, sim),
-                    "events": enc_events(n, env.reporter.reports),
-                    "oracle": oracle.encode(n),
-                    "skip": oracle.boundary_hit,
-                }
-            )
+                sim = simulation_state_ops.tick(sim)
+        except Exception as e:  # the implementation aborted a phase the model completes: a finding, not a harness failure
+            info = impl_raised(e)
+            if info is None:
+                raise
+            info["id"] = f"{tag}:{k}"
+            info["seed_tag"] = tag
+            raised_info.append(info)
             env.reporter.reports = []
-            if not raised and instrs:
-                # independence (C09): which instructions took effect in the phase, and - for one that did
-                # not although nothing before it did - whether it is accepted when applied alone to the
-                # same state (then only another vehicle's rejected instruction can have disturbed it)
-                taken = [sim.applied_instructions.get(i.vehicle_id) is i for i in instrs]
-                alone = []
-                for idx, i in enumerate(instrs):
-                    if not taken[idx] and not any(taken[:idx]):
-                        try:
-                            solo = apply_instructions(pre, env, (i,))
-                            alone.append([idx, solo.applied_instructions.get(i.vehicle_id) is i])
-                        except Exception:
-                            alone.append([idx, False])
-                recs[-1]["taken"] = taken
-                recs[-1]["alone"] = alone
-                env.reporter.reports = []
-            # --- update phase ---
-            oracle.reset()
-            pre = sim
-            sim = perform_vehicle_state_updates(sim, env)
-            crow = []
-            for vid_, v_ in sorted(sim.vehicles.items()):
-                p_ = pre.vehicles.get(vid_)
-                if p_ is not None and p_.geoid != v_.geoid:
-                    crow.append([n.get("veh", vid_), q(_crow_km(p_.geoid, v_.geoid))])
-            recs.append(
-                {
-                    "op": "update",
-                    "id": f"{tag}:{k}:update",
-                    "crow": crow,
-                    "pre": enc_sim(n, pre),
-                    "post": enc_sim(n, sim),
-                    "events": enc_events(n, env.reporter.reports),
-                    "oracle": oracle.encode(n),
-                    "skip": oracle.boundary_hit,
-                }
-            )
-            env.reporter.reports = []
-            sim = simulation_state_ops.tick(sim)
     # C16 (supporting evidence): a state obtained earlier reads exactly the same after all later phases
     changed = [rid for rid, obj, enc in retained if _json.dumps(enc_sim(n, obj), sort_keys=True) != enc]
     recs[0]["retained_changed"] = changed
     recs[0]["retained_checked"] = len(retained)
+    recs[0]["impl_raised"] = raised_info
     return recs
